@@ -308,9 +308,9 @@ var supporting = map[string]struct {
 	rules []func(*Ctx) *rule
 	why   string
 }{
-	"C01": {[]func(*Ctx) *rule{ruleHS2, ruleHS3, ruleHS5, ruleHS6, ruleHS7, ruleHE1, ruleGL1, ruleGL2, ruleGL3, ruleGL4},
+	"C01": {[]func(*Ctx) *rule{ruleHS2, ruleHS3, ruleHS5, ruleHS6, ruleHS7, ruleHS8, ruleHE1, ruleGL1, ruleGL2, ruleGL3, ruleGL4},
 		"the digest compared by CP1 stands for 'paths and contents' only if every listed file's whole content and path reach it (HS2, HS3, HS5), a failed hashing stops the run (HE1), no digest is a constant that could equal the cache's 'never succeeded' (HS6), and every file matching a glob dependency is in the hashed list (GL1-GL4)."},
-	"C02": {[]func(*Ctx) *rule{ruleHS1, ruleHS2, ruleHS5, ruleHS7, ruleGL3, ruleTK5},
+	"C02": {[]func(*Ctx) *rule{ruleHS1, ruleHS2, ruleHS5, ruleHS7, ruleHS8, ruleGL3, ruleTK5},
 		"an unchanged input set is only skipped if it hashes to the recorded digest again: the digest must not depend on arrival order (HS1) or on anything but path and content (HS2, HS5), the expansion root and pattern must be the same every time (GL3), and a plain file must not be taken for a pattern that matches nothing (TK5)."},
 	"C05": {[]func(*Ctx) *rule{ruleTK5, ruleHS7},
 		"which strings are globs at all (TK5); the remembered expansion of a pattern is handed to the hasher, which must leave it as it is (HS7)."},
@@ -322,8 +322,10 @@ var supporting = map[string]struct {
 		"the invalidation written before the commands start is the empty string: it only invalidates if no digest can be the empty string (HS6)."},
 	"C12": {[]func(*Ctx) *rule{ruleGL1, ruleGL3, ruleTK5, ruleAB2, ruleFD4},
 		"'files matching output globs' are those the shared expansion finds (GL1, GL3, TK5); 'the spokfile' and 'the directory containing it' are what discovery settled (AB2, FD4)."},
-	"C15": {[]func(*Ctx) *rule{ruleFX2, ruleST9},
-		"what --fmt leaves in the file is the formatted text and nothing else (FX2: one write of Tree.String() that replaces the file); a docstring or comment used as a printf format is garbled wherever it contains a % (ST9)."},
+	"C18": {[]func(*Ctx) *rule{ruleHS3},
+		"'a file that cannot be opened or read yields an error, never a digest': every job other than a directory found by this call's own Stat produces a result (HS3)."},
+	"C15": {[]func(*Ctx) *rule{ruleFX2, ruleST9, ruleTL2},
+		"what --fmt leaves in the file is the formatted text and nothing else (FX2: one write of Tree.String() that replaces the file); a docstring or comment used as a printf format is garbled wherever it contains a % (ST9); a comment is only kept if it is scanned at all: the lexer starts at offset 0 and its token start only ever moves up to the scan position (TL2)."},
 	"C14": {[]func(*Ctx) *rule{ruleCP1, ruleCP3("CP3L"), ruleCP6, ruleGL4, ruleCP12, ruleHS6},
 		"'a forced run does not damage the cache' is C01 after a forced run: the digest a forced run records must be the one of the inputs its commands ran on (CP1, CP3L), computed over all inputs, globs expanded (CP6, GL4), and the persisted file must be exactly that map (CP12)."},
 	"C19": {[]func(*Ctx) *rule{ruleAB1, ruleAB2, ruleFD4, ruleGR5, ruleEN4, ruleEN3},
